@@ -14,10 +14,15 @@ from traffic_weaver import Weaver
 PROPERTY = "C13"
 LEVEL = "exploration"
 RULE = ("Hypothesis builds series of 4..60 samples (eight spacing kinds incl. integer dtype, non-uniform gaps with "
-        "max/min ratio <= 1e2 and a 1e6 offset; seven value kinds plus affine p*x+q; ndarray / list / int64 "
+        "max/min ratio <= 1e2 and a 1e6 offset, plus epoch seconds 1.7e9 + step*k (step 1/60/3600, float or int64) "
+        "and tiny scales 1e-9..1e-11 * lattice; seven value kinds plus affine p*x+q; ndarray / list / int64 "
         "containers) and sorted new grids composed point by point from: a sample, one ulp beside a sample, inside a "
         "cell, a cell midpoint, below / above the data, a duplicate; grid profiles 'the samples themselves', "
-        "'superset of the samples', 'subset', 'inside only', 'mixed', 'beyond'. Each of the four methods is run "
+        "'superset of the samples', 'subset', 'inside only', 'mixed', 'beyond', 'shifted' (same length as x, end "
+        "points kept, interior points moved by 0.1..0.9 of the neighbouring gap, forwards / backwards / mixed, "
+        "preferably on epoch / tiny abscissae) and 'integer grid' (np.arange-like or random integers around the "
+        "range; every all-integer grid is passed as int64 array or list of Python ints, with non-integer y). "
+        "Weaver.interpolate(n) is also run with n = len(x) on non-uniform epoch / tiny x. Each of the four methods is run "
         "through process.interpolate; Weaver.interpolate is run with n in 2..200 (thorough 2..600) and with explicit "
         "grids whose end points are equal, or differ at the first / last / both ends (by one ulp or more), and with "
         "unknown method names. Non-trivial = the new grid is not a subset of the samples (at_samples: the values "
@@ -25,7 +30,11 @@ RULE = ("Hypothesis builds series of 4..60 samples (eight spacing kinds incl. in
 ASSUMPTIONS = ["x strictly increasing, new grid non-decreasing and non-empty (documented preconditions)",
                "cubic/spline compared at the samples with 1e-9*max|y| (measured 6e-13) on grids with max/min gap "
                "ratio <= 1e2; 'linear' with 1e-12*(|y_i|+|y_i+1|) against the exact rational two-point value "
-               "(measured 4e-16); affine data with 1e-9*(|p|*max|x|+|q|) (measured 3e-13)",
+               "(measured 3e-16 also for x = 1.7e9 + k and 1e-9*k: x_i+1 - x_i and q - x_i are exact float "
+               "differences, so the two-point formula suffers no eps*|x|/gap amplification and the tolerance was "
+               "not widened); affine data against the exact rational p*q + c with 512*eps*S ('linear') and "
+               "512*r^2*eps*S (cubic/spline), S = |p|*max|x|+|q|, r = max/min gap (see affine_tolerance; measured "
+               "<= 0.009 of the tolerance)",
                "interpolate(n): steps equal the exact (x_last - x_first)/(n-1) within 16 ulp of max|x| (numpy.linspace "
                "itself deviates by up to 3.64 ulp in a 2e5-case search, so DESIGN's 4 ulp was widened)",
                "outside the data range only finiteness is asserted for linear/cubic/spline (not stated)",
@@ -80,12 +89,14 @@ def affine_tolerance(method, x, p, c):
     that is eps*|x|/gap relative to the change of y over one gap, the term that matters there).  'linear' forms a
     convex combination of two samples: measured <= 1 eps*S.  The cubic / B-spline fits amplify data errors on
     non-uniform grids; measured against the exact rational p*q + c: <= 7 eps*S for gap ratio r <= 10 and
-    <= 2.1e3 eps*S for r <= 100, i.e. growing no faster than r**2.  Tolerance 400*eps*S for 'linear' and
-    400*r**2*eps*S (8.9e-10*S at r = 100) for the splines keeps >= 2 decades of head-room at every r."""
+    <= 2.1e3 eps*S for r <= 100, i.e. growing no faster than r**2.  Tolerance 512*eps*S for 'linear' and
+    512*r**2*eps*S (1.1e-9*S at r = 100) for the splines keeps >= 2 decades of head-room at every r (worst
+    measured ratio deviation/tolerance 0.009) and is, for x = 1.7e9 + k, still 1000 times smaller than the change
+    of y over a tenth of a gap."""
     d = [float(b) - float(a) for a, b in zip(x[:-1], x[1:])]
     r = max(d) / min(d)
     scale = abs(p) * max(abs(float(x[0])), abs(float(x[-1]))) + abs(c)
-    k = 400.0 if method == "linear" else 400.0 * max(1.0, r) ** 2
+    k = 512.0 if method == "linear" else 512.0 * max(1.0, r) ** 2
     return k * EPS * scale
 
 
@@ -166,7 +177,8 @@ def epoch_x(draw, m):
 
 @st.composite
 def tiny_x(draw, m):
-    """1e-9 * lattice: all samples lie inside numpy.allclose's default atol of each other's neighbours."""
+    """1e-9 (1e-10, 1e-11) * lattice: neighbouring samples lie inside numpy.allclose's default atol of each other."""
+    unit = draw(st.sampled_from([1e-9, 1e-9, 1e-10, 1e-11]))
     k0 = draw(st.integers(-50, 50))
     if draw(st.booleans()):
         mult = [1.0] * (m - 1)
@@ -175,7 +187,7 @@ def tiny_x(draw, m):
     k = [float(k0)]
     for v in mult:
         k.append(k[-1] + v)
-    return dict(kind="tiny", x=[1e-9 * v for v in k], int=False)
+    return dict(kind="tiny", x=[unit * v for v in k], int=False)
 
 
 @st.composite
@@ -184,6 +196,9 @@ def any_x(draw, m, xmode=None):
         kind = draw(st.sampled_from(INT_X_KINDS))
     elif xmode == "intfriendly":
         kind = draw(st.sampled_from(INT_FRIENDLY_X_KINDS))
+    elif xmode == "close":
+        # abscissae whose neighbours are 'close' for a float comparison with default tolerances
+        kind = draw(st.sampled_from(["epoch", "epoch", "tiny", "tiny", "gens"]))
     else:
         kind = draw(st.sampled_from(["gens"] * 6 + ["epoch", "epoch", "tiny"]))
     if kind == "epoch":
@@ -325,7 +340,7 @@ def grid_case(draw, ctx, method=None, affine=False, profiles=None, nonconstant=F
         case = draw(base(ctx, affine=affine, nonconstant=nonconstant,
                          xmode="intx" if profile == "same-int" else "intfriendly", ykinds=NON_INTEGER_Y_KINDS))
     else:
-        case = draw(base(ctx, affine=affine, nonconstant=nonconstant))
+        case = draw(base(ctx, affine=affine, nonconstant=nonconstant, xmode="close" if profile == "shifted" else None))
     x = case["x"]
     if profile in ("same", "same-int"):
         g = [float(v) for v in x]
@@ -399,6 +414,12 @@ def common_classes(case):
         cls.add("profile:" + case["profile"])
     if "gc" in case:
         cls.add("gc:" + case["gc"])
+        if case["gc"] in ("int", "intlist") and not all(float(v).is_integer() for v in case["y"]):
+            cls.add("int-grid & non-integer y")
+    if case["xint"] and not all(float(v).is_integer() for v in case["y"]):
+        cls.add("int-dtype x & non-integer y")
+    if "grid" in case and len(case["grid"]) == len(case["x"]) and case["grid"] != [float(v) for v in case["x"]]:
+        cls.add("grid:same-length-but-different")
     x = case["x"]
     d = [b - a for a, b in zip(x[:-1], x[1:])]
     cls.add("x-uniform" if max(d) - min(d) <= 1e-9 * max(d) else "x-non-uniform")
@@ -503,6 +524,8 @@ def weaver_n_body(ctx, case):
     cls.add("method:" + method)
     m = len(case["x"])
     cls.add("n==2" if n == 2 else "n<len" if n < m else "n==len" if n == m else "n>len")
+    if n == m and "x-non-uniform" in cls:
+        cls.add("n==len on non-uniform x")
     if (n - 1) % (m - 1) == 0 and "x-uniform" in cls:
         cls.add("grid-contains-all-samples")
     ctx.record(case, cls, nontrivial=grid_classes(case["x"], grid)[1])
@@ -510,21 +533,35 @@ def weaver_n_body(ctx, case):
 
 @st.composite
 def weaver_n_case(draw, ctx):
-    case = draw(base(ctx, affine=draw(st.integers(0, 3)) == 0))
+    same_length = draw(st.integers(0, 2)) == 0
+    case = draw(base(ctx, affine=draw(st.integers(0, 3)) == 0, xmode="close" if same_length else None))
     m = len(case["x"])
-    n = draw(st.one_of(st.integers(3, 12), st.integers(13, 60), st.integers(61, ctx.pick(200, 600)),
-                       st.sampled_from([2, 3, m, m - 1, m + 1, 2 * m - 1, 3 * m - 2])))
+    if same_length:
+        n = m          # as many points as samples: on non-uniform x the new grid is near, but not on, the samples
+    else:
+        n = draw(st.one_of(st.integers(3, 12), st.integers(13, 60), st.integers(61, ctx.pick(200, 600)),
+                           st.sampled_from([2, 3, m, m - 1, m + 1, 2 * m - 1, 3 * m - 2])))
     case.update(n=n, method=draw(st.sampled_from(METHODS)), n_kw=draw(st.booleans()))
     return case
 
 
 @st.composite
 def weaver_grid_case(draw, ctx):
-    case = draw(base(ctx, affine=draw(st.integers(0, 3)) == 0))
+    inner_profile = draw(st.sampled_from(["inside", "subset", "mixed", "shifted", "shifted", "intgrid", "intgrid"]))
+    affine = draw(st.integers(0, 3)) == 0
+    if inner_profile == "intgrid":
+        case = draw(base(ctx, affine=affine, xmode="intx", ykinds=NON_INTEGER_Y_KINDS))
+    else:
+        case = draw(base(ctx, affine=affine, xmode="close" if inner_profile == "shifted" else None))
     x = case["x"]
     x0, xe = float(x[0]), float(x[-1])
-    inner = draw(points(x, draw(st.sampled_from(["inside", "subset", "mixed"])), 0, 40, clip=True))
-    g = sorted([x0] + inner + [xe])
+    if inner_profile == "shifted":
+        g = draw(shifted_points(x))
+    elif inner_profile == "intgrid":
+        g = sorted([x0] + draw(integer_points(x, inside_only=True)) + [xe])
+    else:
+        g = sorted([x0] + draw(points(x, inner_profile, 0, 40, clip=True)) + [xe])
+    case["profile"] = inner_profile
     mode = draw(st.sampled_from(["equal", "equal", "equal", "first", "last", "both", "method", "method-unequal"]))
     method = draw(st.sampled_from(METHODS))
     span = xe - x0
@@ -548,7 +585,7 @@ def weaver_grid_case(draw, ctx):
         g = sorted(g + [moved(xe, False)])
     if mode.startswith("method"):
         method = draw(st.sampled_from(BOGUS))
-    case.update(grid=g, mode=mode, method=method, gc=draw(st.sampled_from(["array", "array", "list"])),
+    case.update(grid=g, mode=mode, method=method, gc=draw(grid_container(g)),
                 via=draw(st.sampled_from(["kw", "kw", "n-and-kw"])))
     return case
 
@@ -623,7 +660,7 @@ def weaver_grid_body(ctx, case):
 
 SUBCHECKS = [
     Sub("at_samples", "hyp", at_samples_body, quick=400, thorough=8000,
-        strategy=lambda ctx: grid_case(ctx, profiles=["same", "same", "superset", "subset"]),
+        strategy=lambda ctx: grid_case(ctx, profiles=["same", "same", "superset", "subset", "same-int", "same-int"]),
         clause="every method returns the sample values at the original abscissae (linear/constant exactly, "
                "cubic/spline to 1e-9)"),
     Sub("constant", "hyp", single_method_body, quick=400, thorough=8000,
